@@ -241,7 +241,8 @@ def check_encoders(out, facts, S):
             for node, _p in _walk_thir(ue['thir'], [], ue):
                 if node.get('k') == 'call' and node.get('name') == 'new' and 'ArrayVec' in node.get('fa', ''):
                     import re
-                    m = re.search(r'ArrayVec::<u8, (\d+)', node['fa'])
+                    # the arrayvec itself, or the crate's wrapper of it through a private constructor
+                    m = re.search(r'ArrayVec::<u8, (\d+)', node['fa']) or re.search(r'ArrayVecWrapper::<(\d+)>', node['fa'])
                     if m:
                         cap = int(m.group(1))
             caps[prim] = cap
